@@ -35,7 +35,7 @@ class ConvND(Operation):
         dilation = (
             np.array((dilation,) * num_conv_channels)
             if isinstance(dilation, Integral)
-            else np.array(dilation, dtype=int)
+            else np.array(dilation)  # (no cast: non-integers must not be truncated)
         )
 
         assert len(dilation) == num_conv_channels and all(
@@ -45,7 +45,7 @@ class ConvND(Operation):
         padding = (
             np.array((padding,) * num_conv_channels)
             if isinstance(padding, Integral)
-            else np.array(padding, dtype=int)
+            else np.array(padding)
         )
         assert len(padding) == num_conv_channels and all(
             p >= 0 and isinstance(p, Integral) for p in padding
@@ -54,7 +54,7 @@ class ConvND(Operation):
         stride = (
             np.array((stride,) * num_conv_channels)
             if isinstance(stride, Integral)
-            else np.asarray(stride, dtype=int)
+            else np.asarray(stride)
         )
         assert len(stride) == num_conv_channels and all(
             s >= 1 and isinstance(s, Integral) for s in stride
